@@ -89,6 +89,16 @@ func (tdsChan *Channel) VerifChanErr() error {
 	}
 }
 
+// VerifChanErrLen returns the number of queued channel errors.
+func (tdsChan *Channel) VerifChanErrLen() int {
+	tdsChan.RLock()
+	defer tdsChan.RUnlock()
+	if tdsChan.closed {
+		return 0
+	}
+	return len(tdsChan.errCh)
+}
+
 // VerifMembers returns the members of an EnvChangePackage.
 func (pkg *EnvChangePackage) VerifMembers() []EnvChangePackageField { return pkg.members }
 
